@@ -309,7 +309,7 @@ type lifeCut struct {
 
 // lifeBehaviour is what the peer does on one TCP connection.
 type lifeBehaviour struct {
-	Kind string  `json:"kind"` // serve | cut | stallSelect | rejectSelect | stallMidFrame | stallLinktest | stallRead | noSelect
+	Kind string  `json:"kind"` // serve | cut | stallSelect | rejectSelect | stallMidFrame | stallFrameSel | stallLinktest | stallRead | noSelect
 	Cut  lifeCut `json:"cut"`
 }
 
@@ -454,6 +454,14 @@ func (p *lifePeer) run1() (why string) {
 			} else if c := p.cutFor("linktest", "toPeer"); c >= 0 {
 				cutOff = c
 			}
+		}
+		if p.isSelected() && p.beh.Kind == "stallFrameSel" {
+			// a partial frame inside an established Selected session, then silence with the socket open:
+			// no T6/T7 is running and linktest is off, so only T8 can notice
+			_, _ = p.conn.Write(lifeStallPrefix(p.beh.Cut.Off, 4))
+			p.markFailed()
+			p.stall()
+			return "exit#6b"
 		}
 		if p.isSelected() && p.beh.Kind == "stallRead" {
 			// stop reading: the library's next write blocks until its write timeout
